@@ -31,10 +31,12 @@ func escapeTemplate(tmpl *Template, node parse.Node, name string) error {
 		err = &Error{ErrEndContext, nil, name, 0, fmt.Sprintf("ends in a non-text context: %+v", c)}
 	}
 	if err != nil {
-		// Prevent execution of unsafe templates.
+		// Prevent execution of unsafe templates: escapeErr makes every Execute* call on t fail.
+		// The underlying text/template tree is left in place: templates that call t analyse its
+		// body in their own context, and clearing the tree made them (and already escaped callers
+		// at execution time) dereference a nil tree.
 		if t := tmpl.set[name]; t != nil {
 			t.escapeErr = err
-			t.text.Tree = nil
 			t.Tree = nil
 		}
 		return err
